@@ -152,7 +152,9 @@ def machine_labelled(routine_ops: list) -> tuple:
                     nodes[nid] = Node("test", (root.op_code.name, tuple(param_key(p) for p in root.params)), (tgt, nxt))
             else:
                 label = (op.op_code.name, tuple(param_key(p) for p in op.params))
-                if op.op_code.name in STOP_OPS:
+                prev = r[idx - 1] if idx > 0 else None
+                in_ctx = prev is not None and not isinstance(prev, (SsbLabel, SsbLabelJump)) and prev.op_code.name in CTX_OPS
+                if op.op_code.name in STOP_OPS and not in_ctx:
                     nodes[nid] = Node("stop", label, ())
                 else:
                     nodes[nid] = Node("op", label, (nxt,))
@@ -285,7 +287,7 @@ def classify(text: str, prog: Any, rid: int, symptom: str, case_scenario: bool) 
         cap = compile_monitored(text)
     except Exception:  # noqa: BLE001
         return [f"unlocated:unclassified:{symptom}"]
-    nodes, entries, headers = S.sem(prog, PERF, case_scenario=case_scenario)
+    nodes, entries, headers = S.sem(prog, PERF, case_scenario=case_scenario, ctx_continues=True)
     nodes = bind_contexts(nodes)
     e = entries[[h["id"] for h in headers].index(rid)]
 
@@ -297,7 +299,7 @@ def classify(text: str, prog: Any, rid: int, symptom: str, case_scenario: bool) 
         except (MalformedRoutines, KeyError, IndexError):
             lts[key] = None
     try:
-        mn, me = machine(cap["compiler"].routine_ops)
+        mn, me = machine(cap["compiler"].routine_ops, ctx_continues=True)
         lts["final"] = (bind_contexts(mn), me[rid])
     except MalformedRoutines:
         lts["final"] = None
@@ -423,7 +425,7 @@ def analyse(prog: Any, text: Optional[str] = None, selfcheck_roundtrip: bool = T
         return out
     out.dump = ops_dump(c.routine_ops)
     try:
-        nodes, entries, headers = S.sem(prog, PERF)
+        nodes, entries, headers = S.sem(prog, PERF, ctx_continues=True)
     except S.StaticError as e:
         out.selfcheck.append(f"compiler accepted a program the reference semantics calls invalid: {e}")
         return out
@@ -438,7 +440,7 @@ def analyse(prog: Any, text: Optional[str] = None, selfcheck_roundtrip: bool = T
         )
         return out
     try:
-        mn, me = machine(c.routine_ops)
+        mn, me = machine(c.routine_ops, ctx_continues=True)
     except MalformedRoutines as e:
         out.problems.append(("malformed-output", str(e)))
         return out
@@ -471,7 +473,7 @@ def analyse(prog: Any, text: Optional[str] = None, selfcheck_roundtrip: bool = T
             if path is not None and _is_case_scenario_deviation(path):
                 out.problems.append(("case-scenario:CaseScenario-for-CaseValue-under-SwitchScenario", f"routine {rid}: " + describe_path(path)))
                 if nodes_alt is None:
-                    nodes_alt = S.sem(prog, PERF, case_scenario=True)
+                    nodes_alt = S.sem(prog, PERF, case_scenario=True, ctx_continues=True)
                     nodes_alt = (bind_contexts(nodes_alt[0]),) + tuple(nodes_alt[1:])
                 path = equiv(mn, me[rid], nodes_alt[0], nodes_alt[1][idx])
             out.checked_routines += 1
